@@ -466,10 +466,13 @@ static int _yr_ac_find_suitable_transition_table_slot(
 
     size_t bm_len_incr = YR_BITMASK_SIZE(257) * sizeof(YR_BITMASK);
 
-    automaton->bitmask = yr_realloc(automaton->bitmask, bm_len + bm_len_incr);
+    YR_BITMASK* bitmask = (YR_BITMASK*) yr_realloc(
+        automaton->bitmask, bm_len + bm_len_incr);
 
-    if (automaton->bitmask == NULL)
+    if (bitmask == NULL)
       return ERROR_INSUFFICIENT_MEMORY;
+
+    automaton->bitmask = bitmask;
 
     memset((uint8_t*) automaton->bitmask + bm_len, 0, bm_len_incr);
 
